@@ -22,7 +22,7 @@ EXPLANATION = (
     "by blockdims_from_blockshape); R16.3 PASS: every normal return also passes a refusal of negative sizes placed after the "
     "-1 / None placeholder substitution (without it `(-2,)` was normalised to ((-1,),) and ((-1, 6),) accepted for an axis of 5 - "
     "repaired in /repo). The sums, the byte limit of 'auto' axes and the uniform-size clause are integer arithmetic and "
-    "are not decided, except R16.4 FLOW: inside auto_chunks every per-axis element of `chunks` that is used as a value (the fixed axes feeding `largest_block`, the budget the 'auto' axes are sized against) is used as the number it is or under max() / sorted()[-1] - a positional pick (`cs[0]`), min() or any other aggregate is not an upper bound of the blocks of that axis and lets 'auto' blocks exceed the limit for layouts whose largest block sits elsewhere."
+    "are not decided, except R16.4 FLOW: inside auto_chunks every per-axis element of `chunks` that is used as a value (the fixed axes feeding `largest_block`, the budget the 'auto' axes are sized against) is used as the number it is or under max() / sorted()[-1] - a positional pick (`cs[0]`), min() or any other aggregate is not an upper bound of the blocks of that axis and lets 'auto' blocks exceed the limit for layouts whose largest block sits elsewhere; R16.5 FLOW: a for-sweep of auto_chunks that removes axes from a set (directly or through a nested helper) does not take len() of that set inside the sweep - the share of the budget per axis is computed from the snapshot made before the sweep."
 )
 ASSUMPTIONS = ["blockdims_from_blockshape builds a tiling of the shape from integer sizes (arithmetic, not decided)"]
 TRUSTED = ["CPython ast", "sa.cfg must-pass-through", "sa.refguards (negation-normal-form conjunct fingerprints)", "reviewed reference table fixtures/ref_guards.json"]
@@ -253,7 +253,44 @@ def r16_4(ctx):
     return rr
 
 
-RULES = [r16_1, r16_2, r16_3, r16_4]
+_SHRINK = {"remove", "discard", "pop", "clear", "difference_update", "intersection_update"}
+
+
+def _shrunk_names(nodes):
+    out = {}
+    for root in nodes:
+        for n in ast.walk(root):
+            if isinstance(n, ast.Call) and isinstance(n.func, ast.Attribute) and n.func.attr in _SHRINK and isinstance(n.func.value, ast.Name):
+                out.setdefault(n.func.value.id, n)
+    return out
+
+
+def r16_5(ctx):
+    rr = RuleResult("R16.5", "FLOW", "a sweep of auto_chunks that removes axes from the set it distributes the byte budget over measures that set before the sweep, not while shrinking it", min_instances=1)
+    mod = ctx.repo.mod("dask_array._core_utils")
+    f = mod.functions.get("auto_chunks")
+    need(f is not None, "dask_array/_core_utils.py::auto_chunks")
+    nested = {n.name: n for n in ast.walk(f.node) if isinstance(n, (ast.FunctionDef, ast.Lambda)) and n is not f.node and hasattr(n, "name")}
+    seen = 0
+    for loop in [n for n in ast.walk(f.node) if isinstance(n, ast.For)]:
+        shrunk = _shrunk_names(loop.body)
+        for n in [x for b in loop.body for x in ast.walk(b)]:
+            if isinstance(n, ast.Call) and isinstance(n.func, ast.Name) and n.func.id in nested:
+                for k, v in _shrunk_names(nested[n.func.id].body).items():
+                    shrunk.setdefault(k, n)
+        if not shrunk:
+            continue
+        seen += 1
+        live = [n for b in loop.body for n in ast.walk(b)
+                if isinstance(n, ast.Call) and dotted(n.func) == "len" and len(n.args) == 1 and isinstance(n.args[0], ast.Name) and n.args[0].id in shrunk]
+        rr.inst(site(f, loop)[:150], shrunk_in_sweep=sorted(shrunk), measured_live=[unparse(n) for n in live])
+        for n in live:
+            ctx.finding(rr, site(f, loop)[:150], f"`{unparse(n)}` is evaluated inside the sweep that removes elements from `{n.args[0].id}` (at `{unparse(shrunk[n.args[0].id])[:60]}`): the per-axis share of the byte budget then depends on how many axes earlier iterations of the same sweep retired, so a later axis takes the whole remaining multiplier and the blocks exceed the limit; the size must be taken from a snapshot made before the sweep", func=f, node=n)
+    need(seen, "a sweep in auto_chunks that retires axes from the set of 'auto' axes")
+    return rr
+
+
+RULES = [r16_1, r16_2, r16_3, r16_4, r16_5]
 
 LEVEL_TEXT = (
     "Static decision of one clause of C16: invalid chunk specifications are refused (reference fingerprints of the 18 refusal "
